@@ -321,6 +321,21 @@ def event_case(rng, c):
         steps.append({"op": "del_pod", "ns": ghost["ns"], "name": ghost["name"]})
     for p in late:
         steps.append({"op": "set_pod", "pod": p})
+    if c["policies"] and rng.random() < 0.5:
+        # ... and one policy is UPDATED to its final form: before, one of its rules named broader peers (every pod of the
+        # namespace, every namespace); its final peers may overlap (a peer listed twice, a broad and a narrow selector)
+        pi = rng.randrange(len(c["policies"]))
+        final = c["policies"][pi]
+        if rng.random() < 0.6:
+            for r in final["ingress"] + final["egress"]:
+                if r["peers"] and rng.random() < 0.7:
+                    r["peers"].append(copy.deepcopy(rng.choice(r["peers"])))          # the same peer twice (legal)
+        early = copy.deepcopy(final)
+        for r in early["ingress"] + early["egress"]:
+            if r["peers"]:
+                r["peers"] = [rng.choice([{"pod": {}}, {"ns": {}}, {"ns": {}, "pod": {}}])]
+        c0["policies"][pi] = early
+        steps.append({"op": "set_policy", "policy": final})
     if rng.random() < 0.6:
         # ... and then an event of an UNRELATED policy (it selects no pod, so no verdict changes): the full resynchronisation
         # it triggers must keep what the pod events built for the policies whose spec did not change
